@@ -207,11 +207,22 @@ def ob_matrix_motion(gridname, op):
     a = 2.5
     g3 = SG.make_grid(a * g.vertices, g.elements, g.domain_indices)
     e2 = Z.relerr(_assemble(g3, op, par, 1.0 / a), A * a ** FACTORS[op])
+    # far from the origin (map-style coordinates) and at extreme sizes: differences of coordinates lose about 7 digits at 5e6, nothing else may be lost
+    g4 = SG.make_grid(g.vertices + np.array([[4.0e5], [5.5e6], [120.0]]), g.elements, g.domain_indices)
+    e3 = Z.relerr(_assemble(g4, op, par), A)
+    e4 = 0.0
+    for a4 in (1e-5, 1e4):
+        g5 = SG.make_grid(a4 * g.vertices, g.elements, g.domain_indices)
+        e4 = max(e4, Z.relerr(_assemble(g5, op, par, 1.0 / a4), A * a4 ** FACTORS[op]))
+    if e3 > 1e-6 or e4 > 1e-9:
+        return violated("%s on %s: translation to (4e5, 5.5e6, 120) changes the matrix by %.2e (allowed 1e-6); sizes 1e-5 / 1e4 by %.2e (allowed 1e-9)" % (op, gridname, e3, e4),
+                        witness={"grid": gridname, "op": op}, replay={"callable": "checks.c03:replay_motion", "kwargs": {"gridname": gridname, "op": op}, "confirmed": True},
+                        signature="motion-extreme/%s" % op)
     if e1 > 1e-10 or e2 > 1e-10:
         return violated("%s on %s: rigid motion error %.2e, scaling (factor a^%d) error %.2e" % (op, gridname, e1, FACTORS[op], e2),
                         witness={"grid": gridname, "op": op}, replay={"callable": "checks.c03:replay_motion", "kwargs": {"gridname": gridname, "op": op}, "confirmed": True},
                         signature="motion/%s" % op)
-    return held("motion %.1e scaling %.1e" % (e1, e2))
+    return held("motion %.1e scaling %.1e; far translation %.1e, sizes 1e-5 / 1e4 %.1e" % (e1, e2, e3, e4))
 
 
 def replay_motion(gridname, op):
